@@ -345,3 +345,41 @@ def op_loops(case):
         return {"nodes": nodes, "edges": sorted([a.uid, b.uid] for a, b in g.edges), "subs": subs}
     nested = detect_loops(g0)
     return {"input": inp, "nest": proj(nested, True)}
+
+
+@register("fieldmap")
+def op_fieldmap(case):
+    """run the real JSONDataSource on documents with a field mapping, in whole-file and one-JSON-per-line modes"""
+    import json
+    import os
+    import shutil
+    import tempfile
+    from tel2puml.otel_to_pv.data_sources.json_data_source.json_config import JSONDataSourceConfig
+    from tel2puml.otel_to_pv.data_sources.json_data_source.json_datasource import JSONDataSource
+    outs = []
+    base = tempfile.mkdtemp(prefix="verif-c13-", dir="/dev/shm" if os.path.isdir("/dev/shm") else None)
+    try:
+        for ci, c in enumerate(case["cases"]):
+            res = {}
+            for mode in ("whole", "lines"):
+                d = os.path.join(base, "%d_%s" % (ci, mode))
+                os.makedirs(d)
+                try:
+                    if mode == "whole":
+                        for k, doc in enumerate(c["docs"]):
+                            with open(os.path.join(d, "f%03d.json" % k), "w") as fh:
+                                json.dump(doc, fh, indent=2)
+                    else:
+                        with open(os.path.join(d, "all.jsonl"), "w") as fh:
+                            for doc in c["docs"]:
+                                fh.write(json.dumps(doc) + "\n")
+                    cfg = JSONDataSourceConfig(filepath=None, dirpath=d, json_per_line=(mode == "lines"),
+                                               field_mapping=c["field_mapping"])
+                    evs = [e.model_dump() for e in JSONDataSource(cfg)]
+                    res[mode] = {"events": evs}
+                except Exception as e:  # noqa: BLE001
+                    res[mode] = {"error": "%s: %s" % (type(e).__name__, str(e)[:300])}
+            outs.append(res)
+    finally:
+        shutil.rmtree(base, ignore_errors=True)
+    return {"outs": outs}
